@@ -3,6 +3,7 @@
 package tally
 
 import (
+	"sync"
 	"time"
 
 	"github.com/uber-go/tally/v4/internal/verifrt"
@@ -301,4 +302,84 @@ func VerifC04SiblingLifetime() {
 	}
 	verifrt.Assert("c04.lifetime.live-scopes-kept-reporting", nr == 4 && nm == 4)
 	verifrt.Reach("c04.lifetime.end")
+}
+
+// VerifC04SnapshotIndependence: what a caller does with the maps a Snapshot hands out must not
+// reach the scopes: the caller rewrites and empties the tag maps of every snapshot entry, then
+// goes on recording and deriving; a later snapshot shows every scope under the name and tags of
+// its derivation (root, untagged subscope, tagged child, a child derived after the tampering).
+func VerifC04SnapshotIndependence() {
+	rk, rv := verifrt.String("root.tk", 1), verifrt.String("root.tv", 1)
+	k, v := verifrt.String("tk", 1), verifrt.String("tv", 1)
+	for _, s := range []string{rk, rv, k, v} {
+		verifrt.Assume(verifrt.Not(hasDelim(s))) // the key-delimiter class is the recorded C05 finding
+	}
+	verifrt.Assume(k != rk)
+	ts := NewTestScope("p", map[string]string{rk: rv})
+	sub := ts.SubScope("x")
+	tg := ts.Tagged(map[string]string{k: v})
+	ts.Counter("r").Inc(1)
+	sub.Counter("n").Inc(1)
+	tg.Counter("m").Inc(1)
+	first := ts.Snapshot()
+	for _, e := range first.Counters() {
+		tags := e.Tags()
+		for tk := range tags {
+			tags[tk] = "tampered"
+		}
+		tags["extra"] = "tampered"
+		delete(tags, rk)
+	}
+	ts.Counter("r").Inc(1)
+	sub.Counter("n").Inc(1)
+	tg.Counter("m").Inc(1)
+	late := ts.Tagged(map[string]string{k: v}).SubScope("y")
+	late.Counter("l").Inc(1)
+	snap := ts.Snapshot()
+	rootTags := map[string]string{rk: rv}
+	both := map[string]string{rk: rv, k: v}
+	check := func(label, name string, tags map[string]string, want int64) {
+		e, ok := snap.Counters()[KeyForPrefixedStringMap(name, tags)]
+		verifrt.Assert("c04.snapshot-independence."+label+".entry-under-its-derivation", ok)
+		if ok {
+			verifrt.Assert("c04.snapshot-independence."+label+".value", e.Value() == want)
+			okTags := len(e.Tags()) == len(tags)
+			for tk, tv := range tags {
+				okTags = verifrt.And(okTags, e.Tags()[tk] == tv)
+			}
+			verifrt.Assert("c04.snapshot-independence."+label+".tags", okTags)
+		}
+	}
+	check("root", "p.r", rootTags, 2)
+	check("subscope", "p.x.n", rootTags, 2)
+	check("tagged", "p.m", both, 2)
+	check("derived-later", "p.y.l", both, 1)
+	verifrt.Assert("c04.snapshot-independence.four-counters", len(snap.Counters()) == 4)
+	verifrt.Reach("c04.snapshot-independence.end")
+}
+
+// VerifC04ConcurrentCreation: two goroutines create differently named metrics on one prefixed
+// scope at the same time (cached reporter: the name is fixed at allocation); each allocation
+// carries the fully qualified name of its own metric.  2 preemptions, race check.
+func VerifC04ConcurrentCreation() {
+	crec := &vCachedReporter{}
+	root := newRootScope(ScopeOptions{Prefix: "p", CachedReporter: crec, OmitCardinalityMetrics: true, registryShardCount: 1}, 0)
+	// (names short enough to fit whatever spare capacity a precomputed "prefix." buffer has)
+	s := root.SubScope("sub")
+	var wg sync.WaitGroup
+	verifrt.Explore(2)
+	wg.Add(2)
+	go func() { defer wg.Done(); s.Counter("c1").Inc(1) }()
+	go func() { defer wg.Done(); s.Gauge("g1").Update(1); s.SubScope("deeper").Timer("t1").Record(1) }()
+	wg.Wait()
+	verifrt.StopExplore()
+	seen := map[string]string{}
+	for _, a := range crec.allocs {
+		seen[a.kind] = a.name
+	}
+	verifrt.Assert("c04.concurrent-creation.counter-name", seen["counter"] == "p.sub.c1")
+	verifrt.Assert("c04.concurrent-creation.gauge-name", seen["gauge"] == "p.sub.g1")
+	verifrt.Assert("c04.concurrent-creation.timer-name", seen["timer"] == "p.sub.deeper.t1")
+	verifrt.Assert("c04.concurrent-creation.three-allocations", len(crec.allocs) == 3)
+	verifrt.Reach("c04.concurrent-creation.end")
 }
